@@ -59,7 +59,7 @@ def check_line(line, obs, file_nl=b'\n', follow=b'', lead=b''):
     case = {'line': line, 'file_newline': file_nl, 'follow': follow,
             'lead': lead}
     if accept and exc is not None and \
-            type(exc).__name__ == 'DiffXParseError' and exc.linenum == 1 \
+            common.is_parse_error(exc) and exc.linenum == 1 \
             and semantically_invalid(parsed[3]):
         # grammatical, but a known option carries a value the reader may
         # legitimately refuse (e.g. an unknown codec): not the grammar's
@@ -71,7 +71,7 @@ def check_line(line, obs, file_nl=b'\n', follow=b'', lead=b''):
         pairs = parsed[3]
         if exc is not None:
             kind = ('rejected_valid_header'
-                    if type(exc).__name__ == 'DiffXParseError'
+                    if common.is_parse_error(exc)
                     else 'valid_header_raised:%s' % common.exc_mechanism(exc))
             obs.violation(kind, case, repr(exc))
             return
@@ -92,7 +92,7 @@ def check_line(line, obs, file_nl=b'\n', follow=b'', lead=b''):
             obs.violation('accepted_invalid_header%s' % why(line, parsed),
                           case, recs[1:] if len(recs) > 1 else None)
             return
-        if type(exc).__name__ != 'DiffXParseError':
+        if not common.is_parse_error(exc):
             obs.violation('invalid_header_raised:%s'
                           % common.exc_mechanism(exc), case, repr(exc))
             return
